@@ -68,6 +68,8 @@ def gen_game(rng, n, style):
                 ds = [rng.randrange(0, n) for _ in range(m)]
             if any(d <= s for d in ds):
                 rew[-1] = 0     # a player state on a cycle carries no reward (keeps the game stopping)
+                if s > 0 and (s - 1) in ds:
+                    rew[s - 1] = 0
             acts = rng.sample(ACTS, m)
             frs.append(None)
             tl.append([(a, d) for a, d in zip(acts, ds)])
